@@ -101,7 +101,7 @@ func loopKind(k string) bool {
 // only of the ones its quantifier lists).
 var plainKinds = []string{"seq", "let", "when", "unless", "cond", "lambda", "send",
 	"case", "ecase", "casedef", "typecase", "etypecase", "progv", "wots", "wifs", "wos", "letstar", "mvb", "or", "and",
-	"prog1", "prog2", "mvp1", "wslots", "wifo", "wsio", "select", "wzw"}
+	"prog1", "prog2", "mvp1", "wslots", "wifo", "wsio", "select", "wzw", "mapc"}
 
 var loopKinds = []string{"dolist", "dotimes", "do", "prog", "dostar", "progstar", "dovector", "loop", "dosym", "doext", "doall"}
 
@@ -399,7 +399,7 @@ func (g *genCtx) node(depth int) Node {
 			g.blocks = g.blocks[:len(g.blocks)-1]
 			return n
 		}
-		if k == "send" || k == "lambda" {
+		if k == "send" || k == "lambda" || k == "mapc" {
 			g.inSend++
 			n := Node{K: k, ID: id, Kids: g.kids(depth-1, 2)}
 			g.inSend--
@@ -453,6 +453,13 @@ func (e *engine) Generate(seed uint64, idx int, tier string, avoid []harness.Fin
 			avoidKinds[strings.TrimPrefix(f.Trigger, "nontail:")] = true
 		}
 	}
+	for _, f := range avoid {
+		if k, ok := strings.CutPrefix(f.Trigger, "node:"); ok {
+			// a node kind masked by an active finding is rendered as the plain
+			// lambda call it generalises
+			renameKind(&c.Prog, k, "lambda")
+		}
+	}
 	if len(avoidKinds) > 0 {
 		goMode = false
 		sanitize(&c.Prog, nil, map[string]bool{}, avoidKinds)
@@ -472,6 +479,15 @@ func (e *engine) Generate(seed uint64, idx int, tier string, avoid []harness.Fin
 	}
 	b, _ := json.Marshal(c)
 	return b
+}
+
+func renameKind(n *Node, from, to string) {
+	if n.K == from {
+		n.K = to
+	}
+	for i := range n.Kids {
+		renameKind(&n.Kids[i], from, to)
+	}
 }
 
 // twinnable: no files (both routines would append to the same file) and no
@@ -669,6 +685,10 @@ func (n *Node) render(dir string, b *strings.Builder) {
 		fmt.Fprintf(b, "(let ((lv%d (%s %s))) (sim-emit \"bend\" \"nil\" lv%d) lv%d)", n.ID, head, body, n.ID, n.ID)
 	case "lambda":
 		fmt.Fprintf(b, "(funcall (lambda (a%d) %s) %d)", n.ID, all(), n.ID)
+	case "mapc":
+		// the body is a closure called by a built-in function that takes a
+		// function argument: an exit taken in it leaves mapc as well
+		fmt.Fprintf(b, "(mapc (lambda (a%d) %s) '(1 2))", n.ID, all())
 	case "send":
 		// the body is a closure that a flavors method funcalls: the method's
 		// scope reaches the enclosing blocks only through the closure
